@@ -948,6 +948,38 @@ def _key_class(v):
     return 'new' if sx_calls(v, 'format') else 'row'
 
 
+def _outcome(path, v):
+    """True / False / None: the value of a bool the path has branched on"""
+    v = sx_strip(v)
+    if v[0] == 'const' and v[1] in ('true', 'false'): return v[1] == 'true'
+    if v[0] == 'un' and v[1] == 'Not':
+        r = _outcome(path, v[2]); return None if r is None else not r
+    a = path.assume.get(v)
+    if a in (0, 1): return bool(a)
+    return None
+
+
+def _tested_absent(path, table, key, before_bb):
+    """on this path the key inserted at `before_bb` has been looked up in `table` before, with the answer "not there":
+    `!t.contains_key(k)`, `t.get(k).is_none()`, `let None = t.get(k)`, a loop trying names until one is free, ..."""
+    k = sx_strip(key); seen_insert = False
+    for e in path.events:
+        if e[0] != 'call' or not re.search(r'Hash(Map|Set)::<', e[2]) or not e[3] or sx_table_of(e[3][0]) != table: continue
+        if e[1] == 'insert' and e[4] == before_bb and len(e[3]) > 1 and sx_strip(e[3][1]) == k: break
+        if len(e[3]) < 2 or sx_strip(e[3][1]) != k: continue
+        if e[1] in ('contains_key', 'contains') and _outcome(path, e[5]) is False: return True
+        if e[1] in ('get', 'get_mut', 'get_key_value'):
+            res = sx_strip(e[5]) if isinstance(e[5], tuple) else None
+            if res is None: continue
+            if path.assume.get(('discr', res)) == 0: return True                                  # matched as None
+            for d, val in path.assume.items():                                                    # `.is_none()` / `!.is_some()` branched on
+                neg = False
+                while isinstance(d, tuple) and d and d[0] == 'un' and d[1] == 'Not': d = d[2]; neg = not neg
+                if isinstance(d, tuple) and d and d[0] == 'call' and d[1] in ('is_none', 'is_some') and d[3] and sx_strip(d[3][0]) == res and val in (0, 1):
+                    if (bool(val) != neg) == (d[1] == 'is_none'): return True
+    return False
+
+
 class RangeCase(SxOracle):
     """one RANGES entry: the row is of type `typ` (member of eq / ge / le), declared in `a`, its RHS is `bval`
     (None: no RHS entry) and the range value parses to `r`"""
@@ -1059,7 +1091,7 @@ def ranges_rules(ctx, b):
         ctx.bad(R + '/per-entry', 'T-BRANCHFX', b.name, 'no loop over the (row, value) pairs of a RANGES line that stores a right-hand side', b.site()); return
     nextc, header, some_bb, none_bb, blocks = loops[0]
     samples = [(7.0, 3.0), (7.0, -3.0), (None, 0.75), (None, -0.75), (-2.5, 1.5), (-2.5, -1.5)]
-    rows = {'E+': [], 'E-': [], 'G': [], 'L': []}; removed = []; second = []; seen = 0
+    rows = {'E+': [], 'E-': [], 'G': [], 'L': []}; removed = []; second = []; overwrites = []; seen = 0
     for typ, nm in (('eq', 'E'), ('ge', 'G'), ('le', 'L')):
         for bval, r in samples:
             orc = RangeCase(typ, bval, r)
@@ -1085,6 +1117,7 @@ def ranges_rules(ctx, b):
                     elif tab == 'b' and item == 'insert' and len(args) == 2:
                         bvals.append(sx.conc(args[1], p)); b_new = b_new or kc == 'new'
                     elif tab == 'a' and item == 'insert' and len(args) == 2 and kc == 'new':
+                        if not _tested_absent(p, 'a', args[0], bb): overwrites.append('%s %s' % (nm, case))
                         a_ok = a_ok or any(c[1] in ('get', 'get_mut', 'get_key_value') and sx_table_of(c[3][0]) == 'a' and _key_class(c[3][1]) == 'row' for c in sx_calls(args[1]))
                 if sets != want_sets or bvals != [want_b]:
                     rows[key].append('%s: sets %s, right-hand side of the second row %s; the format says sets %s and %s' % (case, sorted(sets), bvals, sorted(want_sets), want_b))
@@ -1094,6 +1127,8 @@ def ranges_rules(ctx, b):
         ctx.check(not rows[key], R + '/' + key, 'T-BRANCHFX', b.name, 'RANGES on a %s row: %s' % (key, '; '.join(sorted(set(rows[key]))[:3])), b.site(nextc.bb), cases=len(samples))
     ctx.check(seen > 0 and not removed, R + '/E-becomes-two-inequalities', 'T-BRANCHFX', b.name, 'a ranged E row is not removed from the equalities (%s)' % ', '.join(removed[:3]), b.site(nextc.bb))
     ctx.check(seen > 0 and not second, R + '/second-row-created', 'T-BRANCHFX', b.name, 'the second row (coefficients copied from the ranged row, and its right-hand side) is not created (%s)' % ', '.join(second[:3]), b.site(nextc.bb))
+    # the name of the generated row is one no row has yet: a declared row (or an earlier generated one) is never overwritten
+    ctx.check(seen > 0 and not overwrites, R + '/second-row-name-unused', 'T-GUARD', b.name, 'the row generated for a ranged row is inserted under a name that has not been tested to be absent from the rows read so far: a declared row of that name would be lost (%s)' % ', '.join(overwrites[:3]), b.site(nextc.bb))
     # every pair of the line is processed
     si = ctx.S.slice_operand(b, nextc.args[0])
     restr = sorted({x.item for x in si.call_objs if x.item in RESTRICTING and x.item not in ('step_by', 'skip') and 'Iterator' in (x.trait or '')})      # stepping over indices / skipping the set name is how pairs are formed
@@ -1313,8 +1348,33 @@ def line_filter_rules(ctx):
         ctx.check(n > 0 and not probs, R + '/%s-skipped' % kind, 'T-LOOPMUST', 'mps::parser', 'every line taken from the file must pass the blank / comment filter: %s' % '; '.join(sorted(set(probs))[:3]), sites[0][0].site(sites[0][1].bb) if sites else '')
 
 
+def entry_rules(ctx):
+    """the loaders that are given a path read the file the same way whatever it is called: no branch in them depends on the path
+    alone (its extension, its name), only on what opening / reading the file gives.  (The layout -- gzip or plain text -- is a
+    property of the content; choosing the decoder by the extension reads a gzipped file without `.gz` as empty text.)"""
+    R = 'C17.entry'
+    def reads(c): return bool(re.search(r'(^|::)(from_file|from_zipped_reader|from_raw_reader|load_file|load_raw_reader|load_zipped_reader)(::<.*>)?$|fs::File::open|fs::read', c.name))
+    def io(x): return strip_generic_args(x.name) in ctx.F.bodies or bool(re.search(r'\bstd::(fs|io)::|flate2|\bio::Read\b', x.name))
+    loaders = []
+    for n, b in sorted(ctx.F.bodies.items()):
+        if b.kind != 'fn' or not re.match(r'^mps::([^:]+$|parser::Mps::)', n) or n.startswith('mps::to_mps'): continue
+        pars = [i for i in range(1, b.argc + 1) if 'Path' in b.locals[i]]
+        if pars and any(reads(c) for c in b.calls): loaders.append((b, pars))
+    ctx.check(any(b.hdr.get('item') == 'load_file' for b, _ in loaders), R + '/loaders', 'T-GUARD', 'mps', 'mps::load_file (a loader that is given a path) not found', '')
+    probs = []
+    for b, pars in loaders:
+        ctx.fn(b)
+        for bi in sorted(b.live):
+            t = b.blocks[bi]['term']
+            if t['k'] != 'switch': continue
+            si = ctx.S.slice_operand(b, t['d'])
+            if set(pars) & set(si.params) and not any(io(x) for x in si.call_objs):
+                probs.append('%s (line %s): a branch depends on the path only (%s)' % (b.name, b.site(bi).split(':')[-1], ', '.join(sorted({x.item for x in si.call_objs})) or 'the path itself'))
+    ctx.check(bool(loaders) and not probs, R + '/by-content-not-by-name', 'T-GUARD', 'mps', 'how a file is read must not depend on its name: %s' % '; '.join(probs[:3]), loaders[0][0].site() if loaders else '')
+
+
 def parser_rules(ctx):
-    line_filter_rules(ctx)
+    line_filter_rules(ctx); entry_rules(ctx)
     R = 'C17.keywords'
     b = ctx.method(R + '/sense/anchor', 'mps::parser::ObjSense', 'from_str', trait='FromStr')
     if b is not None:
@@ -1971,6 +2031,6 @@ def check(ctx):
     # decided instances per family on the unchanged tree (instances are per clause, not per loop / call site, so that the
     # count does not depend on how the code is laid out)
     for fam, n in {'C17.bounds': 19, 'C17.columns': 2, 'C17.convert': 6, 'C17.convert.cover': 15, 'C17.convert.defaults': 5, 'C17.convert.kind': 2,
-                   'C17.convert.rows': 5, 'C17.convert.sense': 1, 'C17.convert.sign': 6, 'C17.convert.terms': 1, 'C17.convert.vars': 5, 'C17.defaults': 1,
-                   'C17.keywords': 33, 'C17.lines': 3, 'C17.names': 2, 'C17.ranges': 7, 'C17.rhs': 3, 'C17.rows': 4}.items():
+                   'C17.convert.rows': 5, 'C17.convert.sense': 1, 'C17.convert.sign': 6, 'C17.convert.terms': 1, 'C17.convert.vars': 5, 'C17.defaults': 1, 'C17.entry': 2,
+                   'C17.keywords': 33, 'C17.lines': 3, 'C17.names': 2, 'C17.ranges': 8, 'C17.rhs': 3, 'C17.rows': 4}.items():
         ctx.floor(fam, n)
